@@ -169,7 +169,7 @@ func (w *World) pending(s *Snap) []string {
 	}
 	for id, j := range s.Jobs {
 		rs := runnersOf(id)
-		if j.Start != nil && !j.Completed {
+		if j.Start != nil && !j.Completed && !j.Canceled {
 			// O1: a started job has a scheduler loop
 			if len(rs) == 0 {
 				p = append(p, fmt.Sprintf("job %s started but no runner was created", shortID(id)))
@@ -248,7 +248,7 @@ func (w *World) pending(s *Snap) []string {
 	}
 	// O8: the first change wakes the persist loop; its save is captured by the harness store before
 	// the history goes on (afterwards no automatic save can happen in this case)
-	if w.Mem != nil && len(s.Jobs) > 0 && !w.Mem.Captured() {
+	if w.Mem != nil && len(w.Order) > 0 && !w.Mem.Captured() {
 		p = append(p, "first automatic save not yet captured")
 	}
 	return p
